@@ -127,10 +127,12 @@ def compilerMayBeMissing (actualPos : GoMap Nat Int) (mayBeMissing : GoSet Strin
 def compilerAddTypes {τ : Type} (typeOf : Int → τ) (argRefs : List (Nat × ArgRef)) : GoMap Nat τ :=
   pointUpdates (fun e => e.2.pos) (fun e _ => some (typeOf e.2.symbol)) (fun _ => none) argRefs
 
-/-- compiler/syntax.go `convertPart` (Command):
+/-- compiler/syntax.go `convertPart` (Command) as it was BEFORE /repo commit af67537 (fixed finding
+C18-opt-alias-collision; kept for the record, no current site refers to it):
 `for k, v := range rhs.names { if !aliasOptSuffix && hasOptSuffix(k) { k = trim(k) }; args.Names[k] = v }`.
-`rename` is the identity when `aliasIncludesOptSuffix = true` (the default). -/
-def compilerCopyNames (rename : String → String) (names : List (String × List Nat)) : GoMap String (List Nat) :=
+`rename` is the identity when `aliasIncludesOptSuffix = true` (the default). The current code collects the
+keys, sorts them (`sortedKeys`) and fills `args.Names` from the sorted slice. -/
+def compilerCopyNamesOld (rename : String → String) (names : List (String × List Nat)) : GoMap String (List Nat) :=
   pointUpdates (fun e => rename e.1) (fun e _ => some e.2) (fun _ => none) names
 
 /-- compiler/syntax.go `popRule`: `for name, pos := range rule.names { p.names[name] = pos }` -/
@@ -188,7 +190,7 @@ def shiftdfaPatterns {ρ ψ : Type} (parse : String → Option ρ) (mk : String 
 /-- One constructor per distinct loop model above. -/
 inductive Loop
   | lalrMarkerBits | lalrTrieRules | lalrTrieTerms | expandUpdateArgRefs | syntaxRearrangeArgRefs
-  | grammarActionVarsString | compilerMayBeMissing | compilerAddTypes | compilerCopyNames
+  | grammarActionVarsString | compilerMayBeMissing | compilerAddTypes
   | compilerPopRuleNames | lexerInlineCustom | lexerTokenComments | sortedKeys | genReverseLookup
   | genGoImports | shiftdfaPatterns
   deriving DecidableEq, Repr
@@ -198,8 +200,7 @@ abbrev DistinctBy {α κ : Type} (key : α → κ) (xs : List α) : Prop := (xs.
 
 /-- The order-independence statement of each loop. Hypotheses of the form `DistinctBy Prod.fst` hold for
 every enumeration of a map. The remaining hypotheses are data invariants, named in Facts/ExpectC18.lean:
-`compilerAddTypes`: `ArgRefs[k].Pos = k`; `genReverseLookup`: `Remap` is injective;
-`compilerCopyNames`: no two names collide after removing the opt suffix. -/
+`compilerAddTypes`: `ArgRefs[k].Pos = k`; `genReverseLookup`: `Remap` is injective. -/
 def Loop.OrderIndependent : Loop → Prop
   | .lalrMarkerBits => ∀ (i : Nat) (bits : GoSet Nat) (xs ys : List (Nat × List Nat)),
       xs.Perm ys → Determinism.lalrMarkerBits i bits xs = Determinism.lalrMarkerBits i bits ys
@@ -224,9 +225,6 @@ def Loop.OrderIndependent : Loop → Prop
   | .compilerAddTypes => ∀ (τ : Type) (typeOf : Int → τ) (xs ys : List (Nat × ArgRef)),
       DistinctBy (fun e => e.2.pos) xs →
       xs.Perm ys → Determinism.compilerAddTypes typeOf xs = Determinism.compilerAddTypes typeOf ys
-  | .compilerCopyNames => ∀ (rename : String → String) (xs ys : List (String × List Nat)),
-      DistinctBy (fun e => rename e.1) xs →
-      xs.Perm ys → Determinism.compilerCopyNames rename xs = Determinism.compilerCopyNames rename ys
   | .compilerPopRuleNames => ∀ (parent : GoMap String (List Nat)) (xs ys : List (String × List Nat)),
       DistinctBy Prod.fst xs →
       xs.Perm ys → Determinism.compilerPopRuleNames parent xs = Determinism.compilerPopRuleNames parent ys
